@@ -7,13 +7,21 @@ Tie:  H4 — the real parse_pattern_list / match_pattern_list (real regex / glob
       do_dynamic_update + freeze_dynamic_update on fake modules living in mmap'ed
       regions (page permissions read back from /proc/self/maps);
       H5 — programs built with -fpatchable-function-entry=5 / -pg -mfentry
-      -mnop-mcount run under the snapshot's `uftrace record -P … -U … -Z n`; the
-      tracee dumps its maps, its own function bytes and call counters at exit."""
+      -mnop-mcount run under the snapshot's `uftrace record -P … -U … -Z n`, and
+      statically instrumented programs (-pg -mfentry with PLT / GOT calls, with and
+      without -fcf-protection; -pg -mrecord-mcount) run under `uftrace record -U …`;
+      the tracee dumps its maps, its own function bytes and call counters at exit.
+Unpatch path (-U): the model has two pre-fix flags (`fixed <unpatch_func> <unpatch_fentry_func>`,
+      findings C14-UNPATCH-ANY-CALL and C14-UNPATCH-ENDBR).  The check runs the model in all four
+      variants, takes the one the tree agrees with, and evaluates the -U clause of the property with
+      monitors that do not use the model (`ref_tracer_call`, `unpatch_verdict`).  A tree that behaves
+      like a pre-fix variant is reported per finding: open entry of known_findings.json -> KNOWN-FINDING,
+      fixed entry -> VIOLATION (regression, concrete failing input), no entry yet -> PENDING-FINDING
+      (exit status 0; the repair is in proposed_fixes/)."""
 import glob
 import json
 import os
 import re
-import shutil
 import subprocess
 import sys
 import zlib
@@ -42,31 +50,9 @@ def unhx(h):
     return b"" if h == "-" else bytes.fromhex(h)
 
 
-_UVMODEL = None
-
-
-def private_uvmodel(ctx):
-    """copy of the driver executable taken under the Lean lock right after the build:
-    other builders relink lean/.lake/build/bin/uvmodel while this check is still running"""
-    global _UVMODEL
-    src = C.uvmodel_path()
-    dst = os.path.join(ctx.scratch, "uvmodel")
-    with C.LeanLock():
-        shutil.copy2(src, dst)
-    _UVMODEL = dst
-
-
 def run_model(lines, timeout=900):
-    if _UVMODEL is None:
-        return C.run_model("C14", lines, timeout)
-    r = subprocess.run([_UVMODEL, "C14"], input="\n".join(lines) + "\n", stdout=subprocess.PIPE,
-                       stderr=subprocess.PIPE, text=True, timeout=timeout)
-    if r.returncode != 0:
-        raise RuntimeError("uvmodel C14 failed: %s" % r.stderr[-500:])
-    out = r.stdout.split("\n")
-    if out and out[-1] == "":
-        out.pop()
-    return out
+    """the C14 driver executable (lean/.lake/build/bin/uv_C14), one output line per input line"""
+    return C.run_model("C14", lines, timeout)
 
 
 # ---------------------------------------------------------------- generators
@@ -181,23 +167,140 @@ def gen_pf(rng):
                   "prologue": kind, "code": code.hex(), "tramp_mode": mode, "tramp": tv}
 
 
+ENTRY_NAMES = ("__fentry__", "mcount", "_mcount")          # the tracer's entry functions
+PLT_NAMES = ["__fentry__", "mcount", "_mcount", "puts", "__fentry__2", "mcount_", "fentry", "__cyg_profile_func_enter",
+             "x", "__fentry_", "Mcount"]
+NOP5, NOP6 = bytes.fromhex("0f1f440000"), bytes.fromhex("660f1f440000")
+PUSH_MOV = bytes.fromhex("554889e5")
+
+
+def le32s(v):
+    return (v & 0xffffffff).to_bytes(4, "little")
+
+
+def gen_call(rng, site, lo, hi, maplen, tramp, plts, got_free):
+    """one call instruction for offset `site` of a module image (offsets relative to map->start):
+    returns (kind, bytes, new GOT slots [(off, which)]).  lo/hi = code segment, plts = [(name, addr, size)],
+    got_free = offsets where an 8-byte GOT slot may be placed (outside the code segment)."""
+    r = rng.random()
+    if r < 0.30 and plts:
+        name, a, sz = rng.choice(plts)
+        inside = rng.choice([0, 0, 0, 4, sz - 1, sz])          # sz: one past the entry
+        return "plt:%s+%d" % (name, inside), b"\xe8" + le32s(a + inside - (site + 5)), []
+    if r < 0.42 and tramp is not None:
+        d = rng.choice([0, 0, 0, 0, 1, -1, 16])
+        return "tramp%+d" % d, b"\xe8" + le32s(tramp + d - (site + 5)), []
+    if r < 0.52:
+        tgt = rng.choice([rng.randrange(lo, max(lo + 1, hi)), rng.randrange(0, maplen), -rng.randrange(1, 1 << 20),
+                          maplen + rng.randrange(1 << 20), site + 5])
+        return "othercall", b"\xe8" + le32s(tgt - (site + 5)), []
+    if r < 0.80 and got_free:
+        slot = rng.choice(got_free)
+        which = rng.choice([0, 0, 0, 1, 1, 2])
+        return "got:%d" % which, b"\xff\x15" + le32s(slot - (site + 6)), [(slot, which)]
+    if r < 0.88:
+        # a slot that must not count as a GOT entry: inside the code segment, straddling its border,
+        # straddling / beyond the end of the mapping, before the mapping
+        which = rng.choice([0, 1])
+        choices = [maplen - rng.randrange(1, 8), maplen, maplen + rng.randrange(1, 64), -8, -rng.randrange(1, 4096)]
+        if hi - lo >= 24:
+            choices += [rng.randrange(lo, hi - 8), hi - rng.randrange(1, 8), hi - 8] * 2
+        if lo >= 8:
+            choices += [lo - rng.randrange(1, 8)]
+        slot = rng.choice(choices)
+        if site <= slot < site + 16 or site - 8 < slot <= site:     # never over the instruction itself
+            slot = -8
+        return "badgot:%d" % which, b"\xff\x15" + le32s(slot - (site + 6)), ([(slot, which)] if 0 <= slot <= maplen - 8 else [])
+    if r < 0.94:
+        return "ff-other", b"\xff" + bytes([rng.choice([0x14, 0x25, 0x10, 0xd0])]) + bytes(rng.randrange(256) for _ in range(4)), []
+    return "randcall", bytes([rng.choice([0xe8, 0xe8, 0xe9])]) + bytes(rng.randrange(256) for _ in range(4)), []
+
+
+def ref_tracer_call(code, site, lo, hi, maplen, tramp, plts, got):
+    """the property's notion, independent of the model: is the instruction at `site` a call that enters the tracer —
+    `call rel32` to the module's trampoline or to a PLT entry named __fentry__/mcount/_mcount, or `call *disp(%rip)`
+    through a GOT slot (inside the mapping, outside the code segment) that holds &__fentry__ / &mcount?
+    True / False / None (cannot be told from the case description)."""
+    if code[site:site + 1] == b"\xe8":
+        if site + 5 > len(code):
+            return None
+        tgt = site + 5 + s32(code[site + 1:site + 5])
+        if tramp is not None and tgt == tramp:
+            return True
+        for name, a, sz in plts:
+            if a <= tgt < a + sz:
+                return name in ENTRY_NAMES
+        return False
+    if code[site:site + 2] == b"\xff\x15":
+        if site + 6 > len(code):
+            return None
+        slot = site + 6 + s32(code[site + 2:site + 6])
+        if slot < 0 or slot + 8 > maplen:
+            return False
+        if lo < slot + 8 and slot < hi:
+            return False
+        if slot in got:
+            return got[slot] in (0, 1)
+        if any(abs(slot - o) < 8 for o in got):
+            return None
+        return False
+    return False
+
+
 def gen_uf(rng):
-    ty = rng.choice(ALL_TYPES + ("fentry", "fpatchable", "pg"))
-    pre = bytes(rng.randrange(256) for _ in range(rng.randint(0, 6)))
-    kind, pro = gen_prologue(rng)
-    if rng.random() < 0.3:
-        kind, pro = "ff14", b"\xff" + bytes([rng.choice([0x14, 0x15, 0x25])]) + b"\x00\x00"
-    tail = bytes(rng.randrange(256) for _ in range(rng.randint(0, 10)))
-    code = pre + pro + tail
-    addr = len(pre)
-    size = rng.randint(1, 12)
+    ty = rng.choice(("fentry",) * 6 + ("fpatchable",) * 2 + ("pg",) * 3 + ALL_TYPES)
+    img = bytearray()
+    plts = []
+    base = rng.choice([0, 0, 16, 32])
+    img += bytes(rng.randrange(256) for _ in range(base))
+    for nm in rng.sample(PLT_NAMES, rng.choice([0, 1, 2, 2, 3])):
+        plts.append((nm, len(img), 16))
+        img += bytes.fromhex("ff25") + bytes(rng.randrange(256) for _ in range(14))
+    img += bytes(rng.randrange(256) for _ in range(rng.randint(0, 6)))
+    addr = len(img)
+    endbr = rng.random() < 0.45
+    pre = (ENDBR if endbr else b"") + (PUSH_MOV if ty == "pg" and rng.random() < 0.8 else b"")
+    site = addr + len(pre)
+    body = bytes(rng.randrange(256) for _ in range(rng.randint(1, 12)))
+    textsize = site + 6 + len(body) + rng.choice([0, 0, 3, 16])
+    datalen = rng.choice([0, 0, 8, 16, 24, 40])
+    maplen = textsize + datalen
+    r = rng.random()
+    if r < 0.25:
+        tramp = None
+    elif r < 0.5:
+        tramp = rng.choice([4080, maplen, maplen + 16, textsize])         # outside the code segment / the image
+    else:
+        tramp = rng.randrange(0, textsize)                                  # inside the code segment
+    got_free = list(range(textsize, maplen - 7, 8)) + ([maplen - 8] if datalen >= 8 else [])
+    got = []
+    if rng.random() < 0.22:
+        kind, pro = gen_prologue(rng)                                       # NOPs, near misses, random bytes …
+        if rng.random() < 0.3:
+            kind, pro = "ff14", b"\xff" + bytes([rng.choice([0x14, 0x15, 0x25])]) + b"\x00\x00"
+        pre, site = b"", addr
+        insn = pro
+    else:
+        kind, insn, got = gen_call(rng, site, 0, textsize, maplen, tramp, plts, got_free)
+        kind = ("endbr+" if endbr else "") + kind
+    code = bytes(img) + pre + insn + body
+    code = (code + bytes(rng.randrange(256) for _ in range(maplen)))[:max(maplen, len(code))]
+    if len(code) > maplen:
+        textsize += len(code) - maplen
+        maplen = len(code)
+    size = rng.choice([len(pre) + len(insn) + len(body), rng.randint(1, 12)])
     loc = "~"
-    if ty == "pg" and rng.random() < 0.8:
-        loc = "%d" % (addr + rng.randrange(size))
+    if ty == "pg" and rng.random() < 0.85:
+        loc = "%d" % (site if rng.random() < 0.85 else addr + rng.randrange(size))
     elif rng.random() < 0.1:
         loc = "%d" % (addr + size + rng.randint(0, 3))   # outside the symbol: bsearch fails
-    line = "uf %s %d %d %s %s" % (ty, addr, size, loc, hx(code))
-    return line, {"kind": "uf", "ty": ty, "addr": addr, "size": size, "loc": loc, "prologue": kind, "code": code.hex()}
+    if rng.random() < 0.08:
+        textsize = maplen                                # no data at all: nothing can be a GOT slot
+    line = "uf %s %d %d %s %s %d %s %d %s %d %s" % (
+        ty, addr, size, loc, hx(code), textsize, "~" if tramp is None else "%d" % tramp,
+        len(got), " ".join("%d %d" % g for g in got), len(plts), " ".join("%s %d %d" % (hx(n), a, z) for n, a, z in plts))
+    return " ".join(line.split()), {"kind": "uf", "ty": ty, "addr": addr, "size": size, "loc": loc, "prologue": kind,
+                                    "code": code.hex(), "textsize": textsize, "tramp": tramp, "got": got, "plt": plts}
 
 
 FLOW_NAMES = ["main", "alpha", "alphabet", "beta", "betamax", "foo", "foo_bar", "bar", "ab", "abc", "x1",
@@ -224,18 +327,42 @@ def gen_flow(rng):
             if tend <= toff + 0x200:
                 tend = toff + 0x200 + 600
         tsize = tend - toff
-        ty = rng.choice(PATCH_TYPES * 5 + ("none", "pg", "fentry"))
+        ty = rng.choice(PATCH_TYPES * 4 + ("none", "pg", "pg", "fentry", "fentry", "fentry"))
+        static = ty in ("pg", "fentry") or (ty == "fpatchable" and rng.random() < 0.3)
         img = bytearray(rng.randrange(256) for _ in range(toff))   # "headers" before text
         pos = toff
         limit = tend - 64
-        syms, locs, funcs = [], [], []
+        syms, locs, funcs, got, plts = [], [], [], [], []
+        # PLT entries at the start of the code segment (ST_PLT_FUNC symbols merged in from the dynamic symbols)
+        if rng.random() < (0.85 if static else 0.3):
+            for nm in rng.sample(PLT_NAMES, rng.choice([1, 2, 3])):
+                plts.append((nm, pos, 16))
+                syms.append((nm, pos, 16, "P"))
+                img += bytes.fromhex("ff25") + bytes(rng.randrange(256) for _ in range(14))
+                pos += 16
+        # room for GOT slots: before the code segment, and between its end and the trampoline / the end of the mapping
+        tramp_guess = (tend + 4095) // 4096 * 4096 - 16
+        got_free = [o for o in range(0, toff - 7, 8)] + \
+                   [o for o in range((tend + 7) // 8 * 8, min(region, tramp_guess) - 7, 8)][:6]
         names = rng.sample(FLOW_NAMES, rng.randint(1, 9))
         for nm in names:
             gap = bytes([0xcc] * rng.choice([0, 0, 3, 11]))
-            kind, pro = gen_prologue(rng)
-            if ty in PATCH_TYPES and rng.random() < 0.5:
-                nop = "gcc" if ty == "fpatchable" else "nopmcount"
-                kind, pro = rng.choice([("nop:" + nop, NOPS[nop]), ("endbr+nop:" + nop, ENDBR + NOPS[nop])])
+            callsite = None
+            if static and rng.random() < 0.75:
+                # a statically instrumented (or own-call) function: [endbr64] [push;mov] call …
+                pre = (ENDBR if rng.random() < 0.45 else b"") + (PUSH_MOV if ty == "pg" and rng.random() < 0.8 else b"")
+                site = pos + len(gap) + len(pre)
+                kind, insn, newgot = gen_call(rng, site, toff, tend, region, tramp_guess if rng.random() < 0.5 else None,
+                                              plts, got_free)
+                kind = ("endbr+" if pre[:4] == ENDBR else "") + kind
+                pro = pre + insn
+                callsite = site
+                got += [g for g in newgot if g[0] not in [x[0] for x in got]]
+            else:
+                kind, pro = gen_prologue(rng)
+                if ty in PATCH_TYPES and rng.random() < 0.5:
+                    nop = "gcc" if ty == "fpatchable" else "nopmcount"
+                    kind, pro = rng.choice([("nop:" + nop, NOPS[nop]), ("endbr+nop:" + nop, ENDBR + NOPS[nop])])
             body = bytes(rng.randrange(256) for _ in range(rng.choice([1, 2, 8, 20, 33, 60])))
             if pos + len(gap) + len(pro) + len(body) + 16 > limit:
                 break
@@ -245,7 +372,7 @@ def gen_flow(rng):
             img += pro + body
             pos += len(pro) + len(body)
             size = len(pro) + len(body)
-            stype = rng.choice("TTTTtw") if rng.random() < 0.92 else rng.choice("D?P")
+            stype = rng.choice("TTTTtw") if rng.random() < 0.92 else rng.choice("D?")
             has_sym = rng.random() < 0.9
             if has_sym:
                 syms.append((nm, addr, size, stype))
@@ -253,25 +380,28 @@ def gen_flow(rng):
             if ty == "fpatchable":
                 if rng.random() < 0.9:
                     locs.append(entry)
-            elif ty == "pg" and has_sym and rng.random() < 0.7:
-                locs.append(addr + rng.randrange(min(size, 5)))
+            elif ty == "pg" and has_sym and rng.random() < 0.8:
+                locs.append(callsite if (callsite is not None and rng.random() < 0.85) else addr + rng.randrange(min(size, 5)))
             funcs.append({"name": nm if has_sym else None, "addr": addr, "size": size, "kind": kind,
-                          "stype": stype if has_sym else None})
+                          "stype": stype if has_sym else None, "callsite": callsite})
         img += bytes(rng.randrange(256) for _ in range(max(0, min(limit, region) - pos)))
         img = bytes(img[:region])
+        got = [g for g in got if 0 <= g[0] <= len(img) - 8]
         mods.append({"lib": libs[k], "ty": ty, "toff": toff, "tsize": tsize, "setupfails": 1 if rng.random() < 0.1 else 0,
-                     "npages": npages, "code": img, "syms": syms, "locs": locs, "funcs": funcs, "grow": grow})
-        allnames += [s[0] for s in syms]
+                     "npages": npages, "code": img, "syms": syms, "locs": locs, "funcs": funcs, "grow": grow,
+                     "got": got})
+        allnames += [s[0] for s in syms if s[3] != "P"]
     items = gen_items(rng, ptype, rng.choice([1, 1, 2, 3, 4, 6]), names=allnames or None,
                       modules=["main", "libx", "liby.so", "lib", "", "other", "m"])
     if rng.random() < 0.3:
-        items.append((0, rng.choice([".", "*"]) if ptype != 3 else "*", rng.choice([None, "lib", ""])))
+        items.append((rng.choice([0, 0, 1]), rng.choice([".", "*"]) if ptype != 3 else "*", rng.choice([None, "lib", ""])))
     parts = ["flow %d %s %d %s %d" % (ptype, hx("main"), minsize, items_str(items), nmods)]
     for m in mods:
-        parts.append("%s %s %d %d %d %d %s %d %s %d %s" % (
+        parts.append("%s %s %d %d %d %d %s %d %s %d %s %d %s" % (
             hx(m["lib"]), m["ty"], m["toff"], m["tsize"], m["setupfails"], m["npages"], hx(m["code"]),
             len(m["syms"]), " ".join("%s %d %d %s" % (hx(n), a, s, t) for n, a, s, t in m["syms"]),
-            len(m["locs"]), " ".join("%d" % l for l in m["locs"])))
+            len(m["locs"]), " ".join("%d" % l for l in m["locs"]),
+            len(m["got"]), " ".join("%d %d" % g for g in m["got"])))
     line = " ".join(" ".join(p.split()) for p in parts)
     desc = {"kind": "flow", "ptype": ptype, "minsize": minsize, "items": items,
             "mods": [{k: (v.hex() if isinstance(v, bytes) else v) for k, v in m.items() if k != "code"} for m in mods]}
@@ -364,20 +494,64 @@ def monitor_pf(desc, model_line, impl):
     return None
 
 
+def unpatch_verdict(code, after, site, asis_site, ent, what):
+    """the -U clause of the property for one function: [(tag, message)].
+    code/after = image before/after, site = where the function's tracer call would be (after an optional endbr64;
+    the __mcount_loc entry for -pg), None when this module type / function is never unpatched; ent = ref_tracer_call at
+    `site`; asis_site = the symbol's first byte.  tag = the finding whose shape the failure has, or None."""
+    diff = [i for i in range(len(code)) if code[i] != after[i]]
+    out = []
+    if site is None:
+        if diff:
+            out.append((None, "%s: not to be unpatched, but bytes %s changed" % (what, diff[:8])))
+        return out
+    n = 5 if code[site:site + 1] == b"\xe8" else 6
+    if diff:
+        inside = all(site <= i < site + n for i in diff)
+        if ent is False or (ent is None and not inside) or (ent is True and not inside):
+            # shape of C14-UNPATCH-ANY-CALL: the function's entry is a call that does not enter the tracer and exactly
+            # that call was replaced by a NOP
+            # (at the symbol's first byte in the code as it is; behind the endbr64 once that is skipped)
+            anycall = (code[site:site + 1] == b"\xe8" or code[site:site + 2] == b"\xff\x15") and inside and \
+                after[site:site + n] == (NOP5 if n == 5 else NOP6) and ent is False
+            out.append(("anycall" if anycall else None,
+                        "%s: -U overwrote bytes %s which are not a call into the tracer (%s -> %s)"
+                        % (what, diff[:8], code[min(diff):min(diff) + 6].hex(), after[min(diff):min(diff) + 6].hex())))
+        elif ent is True and after[site:site + n] != (NOP5 if n == 5 else NOP6):
+            out.append((None, "%s: the tracer call was not replaced by the NOP of its length: %s"
+                        % (what, after[site:site + n].hex())))
+    if ent is True and code[site:site + n] == after[site:site + n]:
+        # shape of C14-UNPATCH-ENDBR: the function starts with endbr64 and the call behind it is still there
+        out.append(("endbr" if site == asis_site + 4 and code[asis_site:asis_site + 4] == ENDBR else None,
+                    "%s: selected by -U but still calls the tracer (%s)" % (what, code[asis_site:asis_site + 10].hex())))
+    return out
+
+
 def monitor_uf(desc, model_line, impl):
-    t = model_line.split()
-    code = unhx(t[4])
+    t = model_line.split()       # uf ty addr size loc code …
+    code = unhx(t[5])
     rc, after = impl.split()
     after = unhx(after)
-    diff = [i for i in range(len(code)) if code[i] != after[i]]
-    if not diff:
-        return None
-    lo = int(t[3], 0) if (desc["ty"] == "pg" and t[3] != "~") else desc["addr"]
-    if any(i < lo or i >= lo + 6 for i in diff):
-        return "unpatch wrote outside the 6 bytes at the site: %s" % diff
-    if code[lo] != 0xe8 and code[lo:lo + 2] != b"\xff\x15":
-        return "unpatch modified a site that is not a call"
-    return None
+    if len(after) != len(code):
+        return [(None, "length changed")]
+    addr, ty = desc["addr"], desc["ty"]
+    if "textsize" not in desc:       # corpus / old-format case: structural part only
+        diff = [i for i in range(len(code)) if code[i] != after[i]]
+        lo = int(t[4], 0) if (ty == "pg" and t[4] != "~") else addr
+        if any(i < lo or i >= lo + 10 for i in diff):
+            return [(None, "unpatch wrote outside the entry bytes: %s" % diff)]
+        return []
+    if ty in ("fentry", "fpatchable"):
+        site = site_of(code, addr)
+    elif ty == "pg" and t[4] != "~" and addr <= int(t[4], 0) < addr + desc["size"]:
+        site = int(t[4], 0)
+    else:
+        site = None
+    ent = None
+    if site is not None:
+        ent = ref_tracer_call(code, site, 0, desc["textsize"], len(code), desc["tramp"],
+                              [tuple(x) for x in desc["plt"]], {o: w for o, w in desc["got"]})
+    return unpatch_verdict(code, after, site, site if ty == "pg" else addr, ent, "function at %d (%s)" % (addr, ty))
 
 
 def parse_flow_model(line):
@@ -388,12 +562,14 @@ def parse_flow_model(line):
     for s in segs[1:]:
         m = {"lib": unhx(s[0]).decode(), "ty": s[1], "start": int(s[2], 16), "textaddr": int(s[3], 16),
              "tsize": int(s[4]), "setupfails": s[5] == "1", "npages": int(s[6]), "perms": s[7],
-             "code": unhx(s[8]), "syms": [], "locs": [], "bits": {}}
+             "code": unhx(s[8]), "syms": [], "locs": [], "bits": {}, "plts": []}
         i = 9
         while i < len(s):
             if s[i] == "S":
                 nm = unhx(s[i + 1]).decode()
                 m["syms"].append((nm, int(s[i + 2], 16), int(s[i + 3]), s[i + 4] == "1"))
+                if s[i + 4] == "P":
+                    m["plts"].append((nm, int(s[i + 2], 16), int(s[i + 3])))
                 m["bits"][nm] = s[i + 5]
                 i += 6
             else:
@@ -436,8 +612,10 @@ def monitor_flow(desc, model_line, impl):
     head, mods = parse_flow_model(model_line)
     outs, stats = parse_flow_out(impl)
     items = [(("main" if mod is None else mod), not neg) for neg, nm, mod in desc["items"]]
-    for m, o in zip(mods, outs):
+    res = []
+    for k, (m, o) in enumerate(zip(mods, outs)):
         code, after = m["code"], o["code"]
+        got = {g[0]: g[1] for g in desc["mods"][k].get("got", [])} if k < len(desc.get("mods", [])) else {}
         # W^X: after the freeze nothing of the module is writable; nothing became writable
         for i, (a, b) in enumerate(zip(m["perms"], o["post"])):
             if b in "Ww" and a not in "Ww":
@@ -447,7 +625,11 @@ def monitor_flow(desc, model_line, impl):
         tr = o["tramp"] - m["start"]
         if o["tramp"]:
             allowed |= set(range(tr, tr + 16))
+        lo = m["textaddr"] - m["start"]
+        hi = lo + o["tsize"]
+        maplen = m["npages"] * 4096
         want_patched = {}
+        unpatch = []      # (name, site, asis_site, ent)
         for nm, addr, size in flow_targets(m):
             v = ref_verdict(items, m["bits"].get(nm, ""), m["lib"], None)
             site = site_of(code, addr)
@@ -458,12 +640,31 @@ def monitor_flow(desc, model_line, impl):
                 if window in (NOPS["gcc"], NOPS["nopmcount"]):
                     want_patched[nm] = site
             elif v == "-" and m["ty"] in ("fentry", "fpatchable", "pg") and not m["setupfails"]:
-                # -U may turn an existing call into a NOP
-                sites = [addr] if m["ty"] != "pg" else [l for l in m["locs"] if addr <= l < addr + size]
-                for s in sites:
-                    if code[s] == 0xe8 or code[s:s + 2] == b"\xff\x15":
-                        allowed |= set(range(s, s + 6))
-        bad = [i for i in diff if i not in allowed]
+                # -U turns the function's call into the tracer into a NOP, and nothing else
+                if m["ty"] == "pg":
+                    ls = [l for l in m["locs"] if addr <= l < addr + size]
+                    if len(ls) != 1:
+                        if ls:      # several __mcount_loc entries in one symbol: bsearch may pick any
+                            for l in ls:
+                                allowed |= set(range(l, l + 6))
+                        continue
+                    site = asis = ls[0]
+                else:
+                    asis = addr
+                ent = ref_tracer_call(code, site, lo, hi, maplen, tr if o["tramp"] else None, m["plts"], got)
+                n = 5 if code[site:site + 1] == b"\xe8" else 6
+                if ent is not False:
+                    allowed |= set(range(site, site + n))
+                unpatch.append((nm, site, asis, ent))
+        starts = sorted(a for _, a, _ in flow_targets(m))
+        claimed = set()
+        for nm, site, asis, ent in unpatch:
+            # evaluate the -U clause on this function's own entry bytes (everything else: `allowed` below)
+            w1 = min([asis + 10] + [a for a in starts if a > asis])
+            sub_after = bytes(code[:asis]) + bytes(after[asis:w1]) + bytes(code[w1:])
+            res += unpatch_verdict(bytes(code), sub_after, site, asis, ent, "module %s: function %s" % (m["lib"], nm))
+            claimed |= set(range(asis, w1))
+        bad = [i for i in diff if i not in allowed and i not in claimed]
         if bad:
             return "module %s: bytes modified outside selected patch sites: offsets %s" % (m["lib"], bad[:8])
         for nm, site in want_patched.items():
@@ -476,12 +677,12 @@ def monitor_flow(desc, model_line, impl):
                 v = ref_verdict(items, m["bits"].get(nm, ""), m["lib"], None)
                 if v != "+" or size < max(head["minsize"], 6):
                     return "module %s: function %s (verdict %s, size %d) was patched" % (m["lib"], nm, v, size)
-    return None
+    return res
 
 
 MONITORS = {"pl": monitor_pl, "pf": monitor_pf, "uf": monitor_uf, "flow": monitor_flow}
 THEOREM = {"pl": "c14_last_match_wins", "pf": "c14_patch_is_local / c14_unpatchable_untouched / c14_size_filter",
-           "uf": "c14_unpatch_restores", "flow": "c14_traced_set_exact / c14_wx_after_freeze"}
+           "uf": "c14_unpatch_is_local / c14_unpatch_exact / c14_unpatch_restores", "flow": "c14_traced_set_exact / c14_wx_after_freeze"}
 
 
 # ---------------------------------------------------------------- H5: end to end
@@ -496,12 +697,26 @@ static volatile unsigned sink;
 static unsigned long cnt[%(n)d];
 %(protos)s
 %(bodies)s
+#ifdef OWNCALL
+/* not instrumented, and its first instruction is a call of its own (gcc -O2: `call own_leaf; add $1,%%eax; ret`) */
+#define NINI __attribute__((noinline, noclone, no_instrument_function))
+NINI static unsigned own_leaf(unsigned x) { return x * 7u + 3u; }
+NINI unsigned own_call(unsigned x) { return own_leaf(x) + 1u; }
+#define OWN_NAMES , "own_call"
+#define OWN_FNS , (void *)own_call
+#define OWN_N 1
+#else
+#define own_call(x) ((x) * 7u + 4u)
+#define OWN_NAMES
+#define OWN_FNS
+#define OWN_N 0
+#endif
 typedef unsigned (*fn_t)(unsigned);
 static void dump_state(void)
 {
-	static const char *names[] = { %(names)s, "main", "dump_state" };
+	static const char *names[] = { %(names)s, "main", "dump_state" OWN_NAMES };
 	extern int main(int, char **);
-	void *fns[] = { %(fnptrs)s, (void *)main, (void *)dump_state };
+	void *fns[] = { %(fnptrs)s, (void *)main, (void *)dump_state OWN_FNS };
 	FILE *f = fopen("/proc/self/maps", "r");
 	char l[512];
 	unsigned long lo = 0, hi = 0;
@@ -516,7 +731,7 @@ static void dump_state(void)
 	}
 	if (f)
 		fclose(f);
-	for (i = 0; i < %(n)d + 2; i++) {
+	for (i = 0; i < %(n)d + 2 + OWN_N; i++) {
 		unsigned char *p = fns[i];
 		fprintf(stderr, "FUNC %%s %%lx %%lu ", names[i], (unsigned long)p, i < %(n)d ? cnt[i] : 1UL);
 		for (j = 0; j < 16; j++)
@@ -536,6 +751,7 @@ int main(int argc, char **argv)
 	unsigned r = argc;
 	atexit(dump_state);
 %(calls)s
+	r += own_call(r %% 11);
 	printf("result %%u\n", r);
 	return 0;
 }
@@ -576,30 +792,49 @@ E2E_BUILDS = [
     ("nopmcount", ["-O1", "-pg", "-mfentry", "-mnop-mcount", "-no-pie", "-fno-pic"]),
     ("patchable-cet", ["-O1", "-fcf-protection=full", "-fpatchable-function-entry=5"]),
     ("nopmcount-cet", ["-O1", "-pg", "-mfentry", "-mnop-mcount", "-fcf-protection=full", "-no-pie", "-fno-pic"]),
+    # statically instrumented: every function starts with a call into the tracer, -U turns it into a NOP
+    ("fentry-pie-cet", ["-O2", "-pg", "-mfentry", "-fcf-protection=full"]),      # endbr64; call *__fentry__@GOTPCREL(%rip)
+    ("fentry-plt", ["-O2", "-pg", "-mfentry", "-fcf-protection=none", "-no-pie", "-fno-pic"]),   # call __fentry__@plt
+    ("fentry-pie", ["-O2", "-pg", "-mfentry", "-fcf-protection=none"]),
+    ("fentry-plt-cet", ["-O2", "-pg", "-mfentry", "-fcf-protection=full", "-no-pie", "-fno-pic"]),
+    ("pg-mcountloc-cet", ["-O1", "-pg", "-mrecord-mcount", "-fcf-protection=full", "-no-pie", "-fno-pic"]),
     ("patchable-nopie-O2", ["-O2", "-fpatchable-function-entry=5", "-no-pie", "-fno-pic"]),
     ("nopmcount-cet-O0", ["-O0", "-pg", "-mfentry", "-mnop-mcount", "-fcf-protection=full", "-no-pie", "-fno-pic"]),
     ("plain", ["-O1"]),
 ]
+QUICK_BUILDS = 6        # the quick tier uses the first six
 WITNESS = "c14_prefix_endbr_nop_undetected_witness"
 
 
-def gen_e2e_config(rng, names):
+def is_static_build(bname):
+    return bname.startswith(("fentry", "pg"))
+
+
+def gen_e2e_config(rng, names, static=False, own=False):
     ptype = rng.choice(["regex", "regex", "glob"])
     opts = []
     k = rng.choice([1, 2, 2, 3, 4])
     for _ in range(k):
-        neg = rng.random() < 0.4
+        neg = rng.random() < (0.75 if static else 0.4)
         r = rng.random()
-        if r < 0.4:
+        if static and r < 0.2:
+            p = rng.choice(["own_call", "own", "own_call"]) if ptype == "regex" else rng.choice(["own_call", "own*"])
+        elif r < 0.45:
             p = rng.choice(names + ["main"])
         elif ptype == "regex":
             p = rng.choice(["^a", "alpha.*", "^b", "bet", "util_.", ".", "a$", "_", "^[a-g]", "t", "(alpha|zed)", "^main$", "a+"])
         else:
             p = rng.choice(["a*", "*", "b*", "util_?", "*a", "[a-g]*", "*_*", "?????", "*bet*", "main"])
         opts.append(("U" if neg else "P", p))
-    if all(o == "U" for o, _ in opts):
+    if static:
+        if all(o == "P" for o, _ in opts):
+            opts.append(("U", rng.choice(names)))
+        if own:      # the first configuration of every static build selects the own-call function for unpatching
+            opts.append(("U", "own_call"))
+    elif all(o == "U" for o, _ in opts):
         opts.insert(0, ("P", "." if ptype == "regex" else "*"))
-    z = rng.choice([0, 0, 0, 24, 40, 64])
+    # -Z is also a record-time size filter for every function (mcount_min_size): kept out of the -U runs
+    z = 0 if static else rng.choice([0, 0, 0, 24, 40, 64])
     return ptype, opts, z
 
 
@@ -636,28 +871,34 @@ def elf_info(path):
     return text, dyn, syms, scan, sect, fallback
 
 
-def run_e2e(ctx, hexe, uft, failures, cov, model_ok=True, only=None):
-    """`only` = a replay object: re-evaluate exactly that program / build / option list"""
+def run_e2e(ctx, hexe, uft, failures, cov, model_ok=True, only=None, present=()):
+    """`only` = a replay object: re-evaluate exactly that program / build / option list.
+    failures: (name, replay obj, what, is_monitor); a replay obj may carry "finding_tag" (shape of a finding)."""
     nprog = 1 if only else 2 if ctx.tier == "quick" else 8
     ncfg = 1 if only else 2 if ctx.tier == "quick" else 5
-    builds = [(only["build"], only["flags"])] if only else E2E_BUILDS[:4] if ctx.tier == "quick" else E2E_BUILDS
+    builds = [(only["build"], only["flags"])] if only else E2E_BUILDS[:QUICK_BUILDS] if ctx.tier == "quick" else E2E_BUILDS
     known = [f for f in C.known_findings("C14") if WITNESS in f.get("witness_theorems", [])]
     prefix_hits = 0
     wd = os.path.join(ctx.scratch, "e2e")
     os.makedirs(wd, exist_ok=True)
     runs = 0
-    traced_total = 0
+    traced_total = unpatched_total = 0
     sigs = set()
     samples = []
+    nplain = sum(1 for f in failures)
     for pi in range(nprog):
         names, src = (only["names"], only["source"]) if only else gen_program(ctx.rng, pi)
         cfile = os.path.join(wd, "p%d.c" % pi)
         open(cfile, "w").write(src)
-        picks = list(range(len(builds))) if (only or ctx.tier == "thorough" or pi == 0) else [3, 1 + pi % 2 * 1]
+        if only or ctx.tier == "thorough" or pi == 0:
+            picks = list(range(len(builds)))
+        else:
+            picks = [3, 1 + pi % 2, 4 + pi % 2]
         for bi in picks:
             bname, flags = builds[bi]
+            static = is_static_build(bname)
             exe = os.path.join(wd, "p%d-%s" % (pi, bname))
-            r = C.sh(["gcc", "-w"] + flags + [cfile, "-o", exe])
+            r = C.sh(["gcc", "-w"] + flags + (["-DOWNCALL"] if static else []) + [cfile, "-o", exe])
             if r.returncode != 0:
                 ctx.notes.append("e2e build %s failed: %s" % (bname, r.stdout[-200:]))
                 continue
@@ -670,12 +911,24 @@ def run_e2e(ctx, hexe, uft, failures, cov, model_ok=True, only=None):
             dt = " ".join("%s %d %s" % (hx(n), 1 if lg else 0, ondisk_at(a, 9).hex())
                           for n, a, lg in scan if text[0] <= a < text[0] + text[1])
             t0, t1 = run_model(["dt 0 %s %s %s" % (sect, fallback, dt),
-                                         "dt 1 %s %s %s" % (sect, fallback, dt)]) if model_ok else (None, None)
+                                "dt 1 %s %s %s" % (sect, fallback, dt)]) if model_ok else (None, None)
             nat = subprocess.run([exe], stdout=subprocess.PIPE, stderr=subprocess.PIPE, text=True, timeout=20, cwd=wd)
+            mcount_locs = []
+            if static and bname.startswith("pg"):
+                # the __mcount_loc section (-mrecord-mcount): addresses of the `call mcount` instructions
+                raw = exe + ".mcount_loc"
+                C.sh(["objcopy", "-O", "binary", "--only-section=__mcount_loc", exe, raw])
+                try:
+                    blob = open(raw, "rb").read()
+                except OSError:
+                    blob = b""
+                mcount_locs = [int.from_bytes(blob[i:i + 8], "little") for i in range(0, len(blob) - 7, 8)]
+            allnames = names + ["main", "dump_state"] + (["own_call"] if static and "own_call" in syms else [])
             for ci in range(ncfg):
                 ptype, opts, z = (only["match"], [tuple(o) for o in only["options"]], only["size_filter"]) if only \
-                    else gen_e2e_config(ctx.rng, names)
-                if len(failures) >= 3:      # enough evidence; bound the cost of a broken tree
+                    else gen_e2e_config(ctx.rng, names, static, own=(ci == 0))
+                # enough evidence; bound the cost of a broken tree (cases explained by a present finding do not count)
+                if sum(1 for f in failures[nplain:] if f[1].get("finding_tag") not in present) >= 4:
                     continue
                 data = os.path.join(wd, "d-%d-%d-%d" % (pi, bi, ci))
                 logf = data + ".log"
@@ -698,7 +951,24 @@ def run_e2e(ctx, hexe, uft, failures, cov, model_ok=True, only=None):
                             pass
                 rep = {"kind": "e2e", "program": "p%d" % pi, "build": bname, "flags": flags, "match": ptype,
                        "options": opts, "size_filter": z, "names": names, "source": src, "cmd": " ".join(cmd)}
+                # the match relation from the real engines, the verdicts from the real list code
+                items = [(1 if o == "U" else 0, p, None) for o, p in opts]
+                pl = "pl %d %s %s ~ %s %d %s" % (PTYPES[ptype], hx(os.path.basename(exe)), hx(exe), items_str(items),
+                                                len(allnames), " ".join(hx(s) for s in allnames))
+                hr = subprocess.run([hexe], input=pl + "\n", stdout=subprocess.PIPE, stderr=subprocess.PIPE, text=True)
+                hl = hr.stdout.split("\n")
+                mline = [l[6:] for l in hl if l.startswith("MODEL ")][0]
+                mt = mline.split()
+                bits = mt[7 + len(allnames):]
+                wants = {}
+                for i, f in enumerate(allnames):
+                    col = "".join(b[i] for b in bits)
+                    wants[f] = ref_verdict([("", not n) for n, _, _ in items], col, "", None)
+                own_hit = static and wants.get("own_call") == "-"
                 if rr.returncode != 0 or rr.stdout != nat.stdout:
+                    if own_hit:
+                        # shape of C14-UNPATCH-ANY-CALL: -U selects a function whose first instruction is its own call
+                        rep["finding_tag"] = "anycall"
                     failures.append(("e2e-output", rep, "program output under uftrace differs from native (rc=%d): %r vs %r"
                                      % (rr.returncode, rr.stdout[-200:], nat.stdout[-200:]), True))
                     continue
@@ -754,16 +1024,6 @@ def run_e2e(ctx, hexe, uft, failures, cov, model_ok=True, only=None):
                     t = l.split()
                     if len(t) == 2 and t[0].isdigit():
                         traced[t[1]] = int(t[0])
-                # the match relation from the real engines, the verdicts from the real list code
-                allnames = names + ["main", "dump_state"]
-                items = [(1 if o == "U" else 0, p, None) for o, p in opts]
-                pl = "pl %d %s %s ~ %s %d %s" % (PTYPES[ptype], hx(os.path.basename(exe)), hx(exe), items_str(items),
-                                                len(allnames), " ".join(hx(s) for s in allnames))
-                hr = subprocess.run([hexe], input=pl + "\n", stdout=subprocess.PIPE, stderr=subprocess.PIPE, text=True)
-                hl = hr.stdout.split("\n")
-                mline = [l[6:] for l in hl if l.startswith("MODEL ")][0]
-                mt = mline.split()
-                bits = mt[7 + len(allnames):]
                 mverd = run_model([mline])[0].split("|")[1].strip() if model_ok else None
                 base = funcs["main"][0] - syms["main"][0] if dyn else 0
                 tstart = base + text[0]
@@ -772,62 +1032,173 @@ def run_e2e(ctx, hexe, uft, failures, cov, model_ok=True, only=None):
                 if tramp < tend:
                     tramp += 16
                 pf_lines = []
-                bad = None
+                bad = None      # (message, is_monitor, finding tag)
                 for i, f in enumerate(allnames):
-                    col = "".join(b[i] for b in bits)
-                    want = ref_verdict([("", not n) for n, _, _ in items], col, "", None)
+                    want = wants[f]
                     addr, size = syms[f]
                     ondisk = ondisk_at(addr)
                     site = site_of(ondisk, 0)
+                    ncalls = funcs[f][1] if f != "own_call" else 0
+                    got = traced.get(f, 0)
+                    if mverd is not None and mverd[i] != want and not bad:
+                        bad = ("model verdict for %s is %s, reference %s" % (f, mverd[i], want), False, None)
+                    if static:
+                        # every function but own_call starts (after an optional endbr64 / push;mov) with the compiler's
+                        # call into the tracer; -U replaces exactly that call by a NOP, nothing else ever changes
+                        cp = site       # offset of the compiler's tracer call inside the function (None: unknown)
+                        if mcount_locs:
+                            inl = [l - addr for l in mcount_locs if addr <= l < addr + size]
+                            cp = inl[0] if len(inl) == 1 else None
+                        elif ty == "pg" and ondisk[site:site + 4] == PUSH_MOV:
+                            cp = site + 4
+                        whole = ondisk_at(addr, max(16, min(size, 256)))
+                        instrumented = f != "own_call" and cp is not None and \
+                            (whole[cp:cp + 1] == b"\xe8" or whole[cp:cp + 2] == b"\xff\x15")
+                        n = 5 if cp is not None and whole[cp:cp + 1] == b"\xe8" else 6
+                        expect = instrumented and want != "-"
+                        expbytes = ondisk
+                        if instrumented and want == "-":
+                            # the tracee dumps 16 bytes of each function: a call further in is checked by the trace only
+                            expbytes = ondisk[:cp] + (NOP5 if n == 5 else NOP6) + ondisk[cp + n:] if cp + n <= 16 \
+                                else funcs[f][2]
+                            unpatched_total += 1
+                        sigs.add((bname, want, instrumented, ondisk[:4] == ENDBR))
+                        if instrumented and want == "-" and got and not bad:
+                            bad = ("function %s is selected by -U (last matching option) but was traced %d times (entry bytes %s)"
+                                   % (f, got, funcs[f][2][:10].hex()), True,
+                                   "endbr" if ondisk[:4] == ENDBR and ty != "pg" else None)
+                        if expect and got != ncalls and not bad:
+                            bad = ("function %s not selected by -U was called %d times but traced %d times"
+                                   % (f, ncalls, got), True, None)
+                        if not instrumented and got and not bad:
+                            bad = ("function %s has no tracer call but %d records" % (f, got), True, None)
+                        if funcs[f][2] != expbytes and not bad:
+                            tag = None
+                            if f == "own_call" and want == "-":
+                                tag = "anycall"
+                            elif instrumented and want == "-" and funcs[f][2] == ondisk and ondisk[:4] == ENDBR and ty != "pg":
+                                tag = "endbr"
+                            bad = ("bytes of %s (verdict %s) after the update: %s, expected %s (on disk %s)"
+                                   % (f, want, funcs[f][2].hex(), expbytes.hex(), ondisk.hex()), True, tag)
+                        if expect:
+                            traced_total += 1
+                        if want == "+":
+                            pf_lines.append((f, want, "pf %s %d %d %#x 0 %#x %s" % (ty, z, size, funcs[f][0], tramp, ondisk.hex())))
+                        continue
                     patchable = ondisk[site:site + 5] in NOPS.values()
                     expect = want == "+" and size >= max(z, 6) and patchable and not prefix
-                    ncalls = funcs[f][1]
-                    got = traced.get(f, 0)
                     sigs.add((bname, want, size >= max(z, 6), expect))
-                    if mverd is not None and mverd[i] != want and not bad:
-                        bad = ("model verdict for %s is %s, reference %s" % (f, mverd[i], want), False)
                     if expect and got != ncalls and not bad:
                         bad = ("function %s selected by the last matching option (size %d, -Z %d) was called %d times "
-                               "but traced %d times" % (f, size, z, ncalls, got), True)
+                               "but traced %d times" % (f, size, z, ncalls, got), True, None)
                     if not expect and got and not bad:
                         bad = ("function %s (verdict %s, size %d, -Z %d) must not be traced but has %d records"
-                               % (f, want, size, z, got), True)
+                               % (f, want, size, z, got), True, None)
                     if not expect and funcs[f][2] != ondisk and not bad:
                         bad = ("function %s not selected but its bytes changed: %s -> %s"
-                               % (f, ondisk.hex(), funcs[f][2].hex()), True)
+                               % (f, ondisk.hex(), funcs[f][2].hex()), True, None)
                     if expect:
                         traced_total += 1
-                    v = {"+": "+", "-": "-", "0": "0"}[want]
-                    pf_lines.append((f, v, "pf %s %d %d %#x 0 %#x %s" % (ty, z, size, funcs[f][0], tramp, ondisk.hex())))
+                    pf_lines.append((f, want, "pf %s %d %d %#x 0 %#x %s" % (ty, z, size, funcs[f][0], tramp, ondisk.hex())))
                 # byte-exact comparison with the model's patcher
                 mouts = run_model([l for _, _, l in pf_lines]) if model_ok else []
                 for (f, v, l), mo in zip(pf_lines, mouts):
                     mcode = bytes.fromhex(mo.split()[1]) if v == "+" else bytes.fromhex(l.split()[-1])
                     if mcode != funcs[f][2] and not bad:
                         bad = ("bytes of %s after patching differ from the model: %s vs %s"
-                               % (f, funcs[f][2].hex(), mcode.hex()), False)
+                               % (f, funcs[f][2].hex(), mcode.hex()), False, None)
                 for extra in set(traced) - set(allnames):
                     if not bad:
-                        bad = ("unexpected traced function %s" % extra, True)
+                        bad = ("unexpected traced function %s" % extra, True, None)
                 # W^X on every mapping of the tracee
                 for m in maps:
                     if len(m) >= 2 and "w" in m[1] and "x" in m[1] and not bad:
-                        bad = ("tracee mapping is writable and executable after patching: %s" % " ".join(m), True)
+                        bad = ("tracee mapping is writable and executable after patching: %s" % " ".join(m), True, None)
                 if ty in PATCH_TYPES and textend[2][:8] != bytes.fromhex("3eff2501000000cc") and not bad:
-                    bad = ("no trampoline at the end of the text mapping: %s" % textend[2].hex(), False)
-                if len(samples) < 3:
-                    samples.append({"build": bname, "options": opts, "Z": z, "traced": traced,
+                    bad = ("no trampoline at the end of the text mapping: %s" % textend[2].hex(), False, None)
+                if len(samples) < 4 and (not static or not any(x.get("static") for x in samples)):
+                    samples.append({"build": bname, "static": static, "options": opts, "Z": z, "traced": traced,
                                     "called": {f: funcs[f][1] for f in allnames}})
                 if bad:
                     rep["stderr"] = rr.stderr[-3000:]
                     rep["report"] = rp.stdout[-1500:]
+                    if bad[2]:
+                        rep["finding_tag"] = bad[2]
                     failures.append(("e2e", rep, bad[0], bad[1]))
     cov.update({"e2e_runs": runs, "e2e_runs_matching_prefix_model": prefix_hits, "e2e_selected_function_instances": traced_total,
+                "e2e_unpatched_function_instances": unpatched_total,
                 "e2e_distinct_signatures": len(sigs), "e2e_samples": samples})
     return runs
 
 
 # ---------------------------------------------------------------- driver
+COMBOS = [(1, 1), (1, 0), (0, 1), (0, 0)]     # model variants `fixed <unpatch_func> <unpatch_fentry_func>`, repaired first
+FINDINGS = {
+    "anycall": {
+        "id": "C14-UNPATCH-ANY-CALL", "witness": "c14_prefix_unpatch_anycall_witness",
+        "fix": "proposed_fixes/C14-UNPATCH-ANY-CALL.diff", "flag": "fixed 0 _",
+        "what": "unpatch_func() turns any `e8` / `ff 15` at the entry of a function selected by -U into a NOP without looking "
+                "at the call target: a function whose first instruction is a call of its own (no_instrument_function, "
+                "object built without -pg) loses that call and the program computes something else",
+        "repro": "gcc -O2 -pg -mfentry -fcf-protection=none: `NINI int wrapper(int x){return leaf(x)+1;}`; "
+                 "uftrace record -U wrapper ./a.out prints a different result than ./a.out"},
+    "endbr": {
+        "id": "C14-UNPATCH-ENDBR", "witness": "c14_prefix_unpatch_endbr_witness",
+        "fix": "proposed_fixes/C14-UNPATCH-ENDBR.diff", "flag": "fixed _ 0",
+        "what": "unpatch_fentry_func() looks at the first byte of the symbol, which is endbr64 in -fcf-protection builds: "
+                "a function selected by -U (last match) in a -pg -mfentry binary keeps its call into the tracer and is still traced",
+        "repro": "gcc -pg -mfentry -fcf-protection=full prog.c; uftrace record -U leaf ./a.out; uftrace report still lists leaf"},
+}
+
+
+def finding_entry(fid, witness):
+    """the entry of known_findings.json for this finding (any status), or None while the coordinator has not recorded it"""
+    try:
+        kf = json.load(open(os.path.join(C.VERIF, "known_findings.json")))
+    except (OSError, ValueError):
+        return None
+    for f in kf.get("findings", []):
+        if f.get("property") == "C14" and (f.get("id") == fid or witness in f.get("witness_theorems", [])):
+            return f
+    return None
+
+
+def report_findings(ctx, present, finding_hits, combo, combo_dis):
+    """A finding is *present* when the tree behaves like the pre-fix model variant (or, without a model, when the
+    monitors see cases of its shape).  open entry -> KNOWN-FINDING; fixed entry -> the fix has regressed: VIOLATION with
+    a concrete failing input; no entry yet -> reported as pending (the patch is in proposed_fixes/), exit status 0."""
+    for tag in sorted(FINDINGS):
+        F = FINDINGS[tag]
+        hits = finding_hits.get(tag, [])
+        if tag not in present or (not hits and not combo_dis):
+            continue
+        what = "%s %s (implementation matches the pre-fix model `%s`, witness %s; %d generated case(s) of this shape violate " \
+               "the property on the implementation; repair: %s)" % (F["id"], F["what"], F["flag"], F["witness"], len(hits), F["fix"])
+        ent = finding_entry(F["id"], F["witness"])
+        if ent is not None and ent.get("status") == "open":
+            C.known(ctx, ent, what)
+        elif ent is not None:
+            # recorded as fixed: the repair is gone
+            if hits:
+                name, rep, msg = hits[0]
+                C.violation(ctx, "regression-%s-%s" % (F["id"], name), dict(rep, what=msg, regression_of=ent.get("commit")))
+            else:
+                C.violation(ctx, "regression-%s" % F["id"],
+                            {"kind": "model-code-disagreement", "what": what, "theorem": F["witness"],
+                             "model_variant_disagreements": {"fixed %d %d" % cb: n for cb, n in combo_dis.items()}}, True)
+        else:
+            msg = "PENDING-FINDING: property=C14 %s [not yet recorded in known_findings.json]" % what
+            ctx.notes.append(msg)
+            ctx.coverage.setdefault("pending_findings", []).append(
+                {"id": F["id"], "witness": F["witness"], "proposed_fix": F["fix"], "reproduction": F["repro"],
+                 "cases": len(hits), "e2e_cases": sum(1 for h in hits if h[1].get("cmd")),
+                 "example": (hits[0][1].get("harness_case") or hits[0][1].get("cmd")) if hits else None,
+                 "example_what": hits[0][2][:500] if hits else None,
+                 "e2e_example": next(({"cmd": h[1]["cmd"], "build": h[1].get("flags"), "what": h[2][:500]}
+                                      for h in hits if h[1].get("cmd")), None)})
+            print(msg)
+
+
 def build_harness(ctx):
     exe = os.path.join(ctx.scratch, "h_c14")
     s = ctx.src
@@ -838,6 +1209,22 @@ def build_harness(ctx):
             "arch/x86_64/symbol.c", "utils/filter.c", "utils/rbtree.c", "utils/demangle.c")] + ["-lelf"]
     ok, log = ctx.cc(exe, srcs, extra=["-DHAVE_LIBELF", "-DLIBMCOUNT"])
     return exe, ok, log
+
+
+def desc_of_uf_line(line):
+    """description of a corpus `uf` line (so that the monitor evaluates it like a generated one)"""
+    t = line.split()
+    d = {"kind": "uf", "corpus": True, "ty": t[1], "addr": int(t[2], 0), "size": int(t[3], 0), "loc": t[4],
+         "prologue": "corpus"}
+    if len(t) > 6:
+        d["textsize"] = int(t[6], 0)
+        d["tramp"] = None if t[7] == "~" else int(t[7], 0)
+        ngot = int(t[8])
+        d["got"] = [(int(t[9 + 2 * i], 0), int(t[10 + 2 * i])) for i in range(ngot)]
+        k = 9 + 2 * ngot
+        nplt = int(t[k])
+        d["plt"] = [(unhx(t[k + 1 + 3 * i]).decode(), int(t[k + 2 + 3 * i], 0), int(t[k + 3 + 3 * i], 0)) for i in range(nplt)]
+    return d
 
 
 def corpus_lines():
@@ -861,8 +1248,6 @@ def run(ctx):
         return C.finish(ctx)
     ok, problems = C.prove(ctx, "C14")
     model_ok = ok
-    if ok:
-        private_uvmodel(ctx)
     if not ok:
         # keep going without the model: the monitors may still find a concrete failing input
         C.violation(ctx, "proof", {"kind": "proof-obligation-broken", "problems": problems,
@@ -878,7 +1263,7 @@ def run(ctx):
     quick = ctx.tier == "quick"
     cases = []   # (harness line, desc)
     for l in corpus_lines():
-        cases.append((l, {"kind": l.split()[0], "corpus": True}))
+        cases.append((l, desc_of_uf_line(l) if l.split()[0] == "uf" else {"kind": l.split()[0], "corpus": True}))
     ncorpus = len(cases)
     for _ in range(400 if quick else 6000):
         cases.append(gen_pl(ctx.rng))
@@ -898,14 +1283,31 @@ def run(ctx):
     if r.returncode != 0 or len(models) != len(cases) or len(impls) != len(cases):
         k = min(len(models), len(impls))
         C.violation(ctx, "harness", {"kind": "harness-failed", "rc": r.returncode, "stderr": r.stderr[-2000:],
+                                     "protocol_errors": [l for l in lines if l.startswith("ERROR")][:5],
                                      "cases": len(cases), "got": [len(models), len(impls)],
                                      "next_case": cases[k][0][:2000] if k < len(cases) else None}, True)
         return C.finish(ctx)
     t_harness = ctx.elapsed()
-    mout = run_model(models) if model_ok else list(impls)
+    # the model of the unpatch path has two pre-fix flags; find the variant this tree behaves like
+    uf_idx = [i for i, (_l, d) in enumerate(cases) if d["kind"] in ("uf", "flow")]
+    combo, combo_dis = (1, 1), {}
+    if model_ok:
+        mout = run_model(["fixed 1 1"] + models)[1:]
+        alt = {(1, 1): {i: mout[i] for i in uf_idx}}
+        for cb in COMBOS[1:]:
+            alt[cb] = dict(zip(uf_idx, run_model(["fixed %d %d" % cb] + [models[i] for i in uf_idx])[1:]))
+        combo_dis = {cb: sum(1 for i in uf_idx if C.norm(impls[i]) != C.norm(alt[cb][i])) for cb in COMBOS}
+        combo = min(COMBOS, key=lambda cb: (combo_dis[cb], COMBOS.index(cb)))
+        for i in uf_idx:
+            mout[i] = alt[combo][i]
+        present = {t for t, bit in (("anycall", combo[0]), ("endbr", combo[1])) if not bit}
+    else:
+        mout = list(impls)
+        present = set(FINDINGS)      # cannot be told without the model
     t_model = ctx.elapsed()
 
     failures = []   # (name, replay obj, what, is_monitor)
+    finding_hits = {t: [] for t in FINDINGS}    # tag -> [(name, replay obj, what)]
     disagree = monitor_fail = 0
     distinct = set()
     kinds = {}
@@ -923,22 +1325,30 @@ def run(ctx):
         else:
             sig = (kind, zlib.crc32(mi.encode()))
         distinct.add(sig)
-        bad = None
-        if not desc.get("corpus"):
+        res = []
+        if not desc.get("corpus") or kind == "uf":
             try:
-                bad = MONITORS[kind](desc, models[i], mi)
+                res = MONITORS[kind](desc, models[i], mi)
             except Exception as e:  # malformed implementation output
-                bad = "monitor could not parse implementation output: %r" % (e,)
+                res = "monitor could not parse implementation output: %r" % (e,)
+        if isinstance(res, str):
+            res = [(None, res)]
+        res = res or []
+        unexplained = [m for t, m in res if t not in present]
+        obj = {"what": "; ".join(m for _t, m in res)[:3000] or None, "harness_case": line[:20000], "desc": desc,
+               "model_input": models[i][:20000], "impl_output": mi[:20000], "model_output": mm[:20000],
+               "model_variant": "fixed %d %d" % combo, "theorem": THEOREM.get(kind)}
+        for t in sorted({t for t, _m in res if t in present}):
+            finding_hits[t].append(("case%d" % i, dict(obj, kind="property-violated-on-implementation", finding=FINDINGS[t]["id"]),
+                                    "; ".join(m for tt, m in res if tt == t)))
         if mi != mm:
             disagree += 1
-        if bad:
+        if unexplained:
             monitor_fail += 1
-        if bad or mi != mm:
-            failures.append(("case%d" % i, {
-                "kind": "property-violated-on-implementation" if bad else "model-code-disagreement",
-                "what": bad, "harness_case": line[:20000], "desc": desc, "model_input": models[i][:20000],
-                "impl_output": mi[:20000], "model_output": mm[:20000],
-                "theorem": THEOREM.get(kind)}, bad, bool(bad)))
+        if unexplained or mi != mm:
+            obj["kind"] = "property-violated-on-implementation" if unexplained else "model-code-disagreement"
+            obj["what"] = "; ".join(unexplained)[:3000] or None
+            failures.append(("case%d" % i, obj, obj["what"], bool(unexplained)))
 
     # H5
     cov = {}
@@ -951,16 +1361,24 @@ def run(ctx):
         C.violation(ctx, "make", {"kind": "uftrace-build-failed", "log": mlog[-3000:]}, True)
     else:
         e2e_fail = []
-        e2e_runs = run_e2e(ctx, hexe, uft, e2e_fail, cov, model_ok)
+        e2e_runs = run_e2e(ctx, hexe, uft, e2e_fail, cov, model_ok, present=present)
         for name, rep, what, is_mon in e2e_fail:
             rep = dict(rep)
             rep["what"] = what
             rep["kind"] = "property-violated-on-implementation" if is_mon else "model-code-disagreement"
+            tag = rep.get("finding_tag")
+            if tag in present:
+                rep["finding"] = FINDINGS[tag]["id"]
+                finding_hits[tag].append((name + "-%d" % len(finding_hits[tag]), rep, what))
+                continue
             failures.append((name + "-%d" % len(failures), rep, what, is_mon))
             if is_mon:
                 monitor_fail += 1
             else:
                 disagree += 1
+
+    # genuine defects of the unpatch path that this tree still has (implementation = pre-fix model)
+    report_findings(ctx, present, finding_hits, combo, combo_dis)
 
     # report monitor failures first, at most 3 replays
     failures.sort(key=lambda f: not f[3])
@@ -980,13 +1398,22 @@ def run(ctx):
                 "'@'-containing modules; '!'-prefixed names) x 1-8 symbol names x libname/soname; "
                 "pf: (module type x min size x symbol size x prologue kind {4 NOP patterns, endbr64+NOP, one-bit near "
                 "misses, call, endbr64+call, call *GOT, damaged endbr64, double endbr64, truncated, push rbp, random} x "
-                "trampoline {end of page, +-2^31, exactly next insn, beyond 2^31, absolute}); uf: same prologues x types x "
-                "__mcount_loc hit/miss; flow: 1-3 fake modules (1-2 text pages, with/without room for the trampoline, "
-                "mprotect fault injection) through the real do_dynamic_update + freeze_dynamic_update; "
-                "e2e: generated C programs x gcc flag sets x random ordered -P/-U/-Z under uftrace record. "
+                "trampoline {end of page, +-2^31, exactly next insn, beyond 2^31, absolute}); uf: module images with 0-3 PLT "
+                "symbols (named __fentry__/mcount/_mcount/others) and GOT slots holding &__fentry__/&mcount/another address; "
+                "entry = [endbr64] [push;mov] + {call PLT entry (start, inside, one past), call trampoline (+-1, inside/outside "
+                "the code segment, absent), call elsewhere, call *GOT (slot outside/inside/straddling the code segment, at / "
+                "beyond / before the mapping), ff 14/25/d0, random} or the pf prologues x types x __mcount_loc hit/miss/outside "
+                "the symbol; flow: 1-3 fake modules (1-2 text pages, with/without room for the trampoline, PLT symbols, GOT "
+                "slots before / behind the code segment, statically instrumented functions, mprotect fault injection) through "
+                "the real do_dynamic_update + freeze_dynamic_update; e2e: generated C programs x gcc flag sets (patchable, "
+                "nop-mcount, -pg -mfentry PIE/no-PIE x CET, -pg -mrecord-mcount; an uninstrumented function that begins with "
+                "its own call) x random ordered -P/-U/-Z under uftrace record. "
                 "distinct = distinct (kind, type, prologue kind, return code, size-rule side) / verdict vectors / outputs",
         "cases_by_kind": kinds, "corpus_cases": ncorpus, "patch_return_codes": outcomes,
         "model_code_disagreements": disagree, "monitor_failures_on_impl": monitor_fail,
+        "unpatch_model_variant": "fixed %d %d" % combo,
+        "unpatch_model_variant_disagreements": {"fixed %d %d" % cb: n for cb, n in combo_dis.items()},
+        "finding_shaped_cases": {FINDINGS[t]["id"]: len(v) for t, v in finding_hits.items()},
         "exhaustive": False, "samples": samples,
     })
     ctx.coverage.update(cov)
@@ -1034,14 +1461,21 @@ def replay(ctx, path):
     if not m or not im:
         print("harness failed:", p.stderr[-500:])
         return 2
-    mo = run_model(m)
+    # the model variant the replay was written against (unpatch path), and the repaired code
+    variant = r.get("model_variant", "fixed 1 1")
+    mo = run_model([variant, m[0]])[1:]
     print("impl :", im[0][:500])
-    print("model:", mo[0][:500])
+    print("model (%s):" % variant, mo[0][:500])
+    if variant != "fixed 1 1":
+        print("model (fixed 1 1):", run_model(["fixed 1 1", m[0]])[1][:500])
     bad = None
-    if r.get("desc") and r["desc"].get("kind") in MONITORS and not r["desc"].get("corpus"):
+    d = r.get("desc")
+    if d and d.get("kind") in MONITORS and (not d.get("corpus") or d.get("kind") == "uf"):
         try:
-            bad = MONITORS[r["desc"]["kind"]](r["desc"], m[0], C.norm(im[0]))
+            bad = MONITORS[d["kind"]](d, m[0], C.norm(im[0]))
         except Exception as e:
             bad = "monitor could not parse implementation output: %r" % (e,)
+        if isinstance(bad, list):
+            bad = "; ".join("%s%s" % ("[%s] " % FINDINGS[t]["id"] if t else "", msg) for t, msg in bad)
         print("monitor:", bad or "ok")
     return 0 if (C.norm(im[0]) == C.norm(mo[0]) and not bad) else 1
